@@ -23,6 +23,10 @@ pub fn node_model_line(op: &str) -> Option<String> {
         ["hb"] | ["blk+", _] | ["blkn", _] | ["blk-", _] => Some(op.to_string()),
         // the same block through the protocol handler's AddBlock arm
         ["HBLK+", g] => Some(format!("blk+ {}", g)),
+        // channel creation / forgetting / the heartbeat through the protocol handler's arms
+        ["HNEW", d] => Some(format!("newch {}", d)),
+        ["HFORGET", w] => Some(format!("forget {}", w)),
+        ["HHB"] => Some("hb".to_string()),
         _ => None,
     }
 }
@@ -64,7 +68,7 @@ impl Group for C10Sim {
          add/set/remove with good, bad and mixed entries, keysend (new, duplicate hash, over the velocity limit), new/forget channel, heartbeat, \
          block add/remove (good and bad), restart; non-trivial = at least one refused (Err) request after at least one accepted state-changing request"
     }
-    fn budget(&self, tier: Tier) -> usize { if tier == Tier::Quick { 400 } else { 6000 } }
+    fn budget(&self, tier: Tier) -> usize { if tier == Tier::Quick { 1200 } else { 8000 } }
     fn model_line(&self, op: &str) -> Option<String> { node_model_line(op) }
     fn corpus(&self) -> Vec<Vec<String>> {
         let c = |s: &str| s.split('|').map(|x| x.to_string()).collect::<Vec<_>>();
@@ -94,6 +98,8 @@ impl Group for C10Sim {
             // commitments, with the revocation as a separate message and in the old-protocol composite
             c("world h|HVH 0 g 0|HVH -1 g 0|HVH 0 g 1|HVH 0 g 1|HRV 0|HVH -1 g 1|HVH -1 g 2|HVHO 0 g 2|HVHO -1 g 2|HVHO 0 b 3|HVH 1 g 0|HRV 0|HRV 1"),
             c("world h|HRV 0|HVH 0 b 0|HVHO 0 g 0|HVHO 0 g 10|HVHO 0 g 9|HVHO -1 g 9|HVH 0 g 11|HVH 0 g 0|HRV 0|HRV 0"),
+            // counterparty commitments, revocations and the force-close signature through the handler's arms
+            c("world h|HVH 0 g 0|HSCP 0 0|HSCP 0 1|HCPR 0 g|HSCP 1 2|HSCP 0 9|HSCP 0 10|HCPR 0 b|HCPR 1 g|HSH 0|HSH 3|HVH 0 g 1|HSCP 0 2"),
             // the handler's composite requests: validation followed, in the same request, by the next point /
             // the activation (protocol with a separate revoke message) or by the revocation (old protocol)
             c("hvh 0 g 0|rv 0|hvh 1 g 1|hvh 0 g 1|hvh 0 g 0|hvho 0 g 2|hvho 1 g 0|hvh1o 0 g 10|hvh1 0 g 11|hvh1o 0 g 0"),
@@ -120,6 +126,8 @@ impl Group for C10Sim {
             // a full map of aged stubs: a creation refused for its retired id (and one refused for the full map) must
             // not collect the garbage on the way
             c("newch 5|forget 1|newch 6|newch 7|newch 8|blkn 7|newch 3|newch 9|hb|newch 9|newch 5"),
+            // the same through the protocol handler's NewChannel / ForgetChannel / GetHeartbeat / AddBlock arms
+            c("HNEW 5|HFORGET 1|HNEW 6|newch 7|HNEW 8|blkn 7|HNEW 3|HNEW 9|HHB|HNEW 9|HNEW 5|HFORGET 2|HBLK+ g|HBLK+ b"),
             // re-signing the funding transaction: accepted, then refused at the signing step
             c("osign g|osign b|vh 0 g 0|rv 0|osign g"),
         ]
@@ -131,6 +139,15 @@ impl Group for C10Sim {
         // the one thing that entry makes durable late: keep the two apart in model-compared cases
         if ops.iter().any(|o| o.starts_with("sinv")) {
             for o in ops.iter_mut() { if o.starts_with("osign") { *o = "hb".to_string(); } }
+        }
+        // a third of the node-level requests arrive through the protocol handler's arms
+        for o in ops.iter_mut() {
+            if rng.chance(1, 3) {
+                if let Some(r) = o.strip_prefix("newch ") { *o = format!("HNEW {}", r); }
+                else if let Some(r) = o.strip_prefix("forget ") { *o = format!("HFORGET {}", r); }
+                else if o == "hb" { *o = "HHB".to_string(); }
+                else if o.starts_with("blk+ ") { *o = o.replacen("blk+", "HBLK+", 1); }
+            }
         }
         if rng.chance(1, 4) { ops.insert(0, "world perm".to_string()); }
         else if rng.chance(1, 10) { ops.insert(0, "world nocp".to_string()); }
@@ -153,6 +170,12 @@ impl Group for C10Sim {
                     ops[i] = format!("{} {} {} {}", if rng.chance(1, 3) { "HVHO" } else { "HVH" }, t[1], t[2], t[3]);
                 } else if t[0] == "rv" && rng.chance(2, 3) {
                     ops[i] = format!("HRV {}", t[1]);
+                } else if t[0] == "scp" && t.len() == 3 && rng.chance(2, 3) {
+                    ops[i] = format!("HSCP {} {}", t[1], t[2]);
+                } else if t[0] == "cpr" && t.len() == 3 && rng.chance(2, 3) {
+                    ops[i] = format!("HCPR {} {}", t[1], t[2]);
+                } else if t[0] == "sh" && t.len() == 2 && rng.chance(2, 3) {
+                    ops[i] = format!("HSH {}", t[1]);
                 }
             }
             ops.insert(1, format!("HVH{} 0 g 0", if rng.chance(1, 4) { "O" } else { "" }));
